@@ -206,3 +206,24 @@ def extrema_opts_strategy(parabolic=(False,), custom_pad=False):
                                                 {'mode': 'median', 'stat_length': 2},
                                                 {'mode': 'edge'}, {'mode': 'mean', 'stat_length': 3}])
     return st.fixed_dictionaries(base)
+
+
+def sift_signal(max_n=400):
+    """Signal mix for the sift properties: parametric families at spread-out lengths, a large share of
+    6..10-sample noisy signals (where extrema vanish in the middle of an extraction), the degenerate
+    families (constants, ramps) and element-wise drawn signals (fully shrinkable)."""
+    osc = ('noise', 'walk', 'tones', 'amfm', 'levels', 'edgeplateau')
+    lens = [n for n in (8, 11, 16, 24, 32, 48, 64, 100, 150, 256, 400, 700, 1000, 2000) if n <= max_n]
+
+    @st.composite
+    def fam(draw, families, lengths):
+        return {'family': draw(st.sampled_from(list(families))), 'n': draw(st.sampled_from(lengths)),
+                'k': draw(st.integers(0, 2**32 - 1)), 'p1': draw(st.floats(0, 1)), 'p2': draw(st.floats(0, 1))}
+    return st.one_of(
+        fam(osc, lens), fam(osc, lens), fam(osc, lens),
+        fam(('noise', 'noise', 'levels', 'walk'), [6, 7, 8, 9, 10]),
+        fam(('noise', 'noise', 'levels', 'walk'), [6, 7, 8, 9, 10]),
+        fam(('noise', 'noise', 'levels', 'walk'), [6, 7, 8, 9, 10]),
+        family_signal(3, max_n, families=FAMILIES),
+        elementwise_signal(min_n=6, max_n=min(64, max_n)),
+        elementwise_signal(min_n=6, max_n=min(40, max_n), levels=True))
